@@ -181,7 +181,7 @@ class Gen:
         self.n += 1
         k = self.n
         if depth <= 0 or r < 0.3:
-            return self.rng.choice([("text", "t%d" % k), ("expr", k), ("code", k), ("comment",), ("text", "t%d" % k), ("silent", k), ("silent", k)])
+            return self.rng.choice([("text", "t%d" % k), ("expr", k), ("code", k), ("comment",), ("text", "t%d" % k), ("silent", k), ("silent", k), ("silent", k)])
         if r < 0.5:
             clauses = [(self.rng.choice(["True", "False", "f1", "f0"]), self.body(depth - 1))]
             for _ in range(self.rng.randint(0, 2)):
@@ -216,7 +216,7 @@ def ctl_lines(stmts, rng, wc=[0]):
             out.append(pad + "## a comment")
         elif k == "silent":
             out.append(rng.choice(['<%%def name="sd%d()">in def\n%% if True:\nyes\n%% endif\n</%%def>\\' % s[1], "<%%! import os as os%d %%>\\" % s[1],
-                                   '<%%def name="se%d()"></%%def>\\' % s[1]]))
+                                   '<%%def name="se%d()"></%%def>\\' % s[1], "<%text></%text>\\"]))
         elif k == "if":
             for i, (cond, body) in enumerate(s[1]):
                 out.append("%s%% %s %s:" % (pad, "if" if i == 0 else "elif", cond))
@@ -448,7 +448,8 @@ def run(ctx):
                         kinds += "c"
                     elif isinstance(c, parsetree.ControlLine):
                         kinds += "e" if c.isend else ("t" if node.is_ternary(c.keyword) else "p")
-                    elif isinstance(c, (parsetree.DefTag, parsetree.NamespaceTag, parsetree.InheritTag, parsetree.PageTag)) or (isinstance(c, parsetree.Code) and c.ismodule):
+                    elif isinstance(c, (parsetree.DefTag, parsetree.NamespaceTag, parsetree.InheritTag, parsetree.PageTag)) or (isinstance(c, parsetree.Code) and c.ismodule) \
+                            or (isinstance(c, parsetree.TextTag) and not c.nodes):
                         kinds += "s"
                     else:
                         kinds += "m"
@@ -498,6 +499,8 @@ def run(ctx):
                            ('% if True:\n<%def name="d()">D</%def>\\\n% endif\n${d()}', "D", "silent-only.def"),
                            ("% if True:\n<%! import os %>\\\n% endif\nx", "x", "silent-only.module-code"),
                            ('% if False:\n% else:\n<%namespace name="n">\n<%def name="q()">Q</%def>\n</%namespace>\\\n% endif\n${n.q()}', "Q", "silent-only.namespace"),
+                           ("% if True:\n<%text></%text>\\\n% endif\nx", "x", "silent-only.empty-text"),
+                           ("% for i in [1]:\n<%text></%text>\\\n% else:\n<%text></%text>\\\n% endfor\nx", "x", "silent-only.empty-text-for-else"),
                            ("% if False:\n% elif True:\ny\n% endif\n", "y\n", "empty-then-elif"),
                            ("<%\n    return STOP_RENDERING\n%>never", "", "return"), ("a\n<% return STOP_RENDERING %>b", "a\n", "return-keeps-output"),
                            ('<%def name="d()">in<% return STOP_RENDERING %>no</%def>${d()}out', "inout", "return-in-def"),
